@@ -45,12 +45,16 @@ def classify(j, idx, name_ids):
     mm = j["mm"]
     byte_modrm = None
     toks0 = j["opcodeString"].split()
+    wait_form = False
     if kind == 0 and toks0 == ["9B"]:
         # fwait itself: db/x86.js reads the lone byte as a prefix
         j = dict(j); j["pp"] = ""; j["byte"] = "9B"; j["mm"] = ""
         mm = ""
     elif kind == 0 and toks0 and toks0[0] == "9B":
-        return bad("x87 (9B prefix)")
+        # x87 wait form: FWAIT (9B) followed by the no-wait form; translated as a row of the separate wait buckets (X86Denote.denote2)
+        toks0 = toks0[1:]
+        j = dict(j); j["opcodeString"] = " ".join(toks0); j["pp"] = ""
+        wait_form = True
     if kind == 0 and toks0 and re.fullmatch(r"D[89A-F]", toks0[0]) and len(toks0) >= 2:
         # x87: escape opcode D8..DF followed by /digit (memory form) or by a fixed ModRM byte C0..FF (+i = st(i) in ModRM.rm).
         # db/x86.js stores the escape byte in opcode.mm and mis-reads bytes such as F3 as a mandatory prefix: re-parse the string.
@@ -310,7 +314,7 @@ def classify(j, idx, name_ids):
     r.update({"arch": {"ANY": 0, "X86": 1, "X64": 2}[j["arch"]], "kind": kind, "map": mp, "opc": opc, "ri": j["ri"],
               "pp": pp, "o16": o16, "w": w, "l": ll, "modrm": has_modrm, "mod": mod, "digit": digit, "rmfix": rmfix,
               "imm": sum(imm_fields), "moffs": moffs, "suffix": suffix, "f23": bool(set(j["prefixes"]) & {"rep", "repne", "xacquire", "xrelease", "bnd", "repIgnore", "lock", "ilock"}), "a67": bool(j["h67"]), "tt": TT[j["tt"]], "msz": msz, "bcst": bcst if j["bcst"] else 0,
-              "k": j["k"], "z": j["z"], "er": j["er"], "sae": j["sae"], "vsib": vsib, "ops": ops})
+              "k": j["k"], "z": j["z"], "er": j["er"], "sae": j["sae"], "vsib": vsib, "ops": ops, "wait": wait_form})
     return r
 
 
@@ -341,19 +345,29 @@ def coq_examples(names):
     for n in ("add", "vaddps", "mov", "vpabsq", "lods"):
         out.append("Definition id_%s : Z := %d." % (n, nid[n]))
     nid = {n: "id_" + n for n in ("add", "vaddps", "mov", "vpabsq", "lods")}
-    out.append("Lemma ex_add_rax_rcx : fst (judge bucket row_of M64 %s [OReg 4 0; OReg 4 1] %s [72; 1; 200]) = 0.\nProof. vm_compute. reflexivity. Qed.\n" % (nid["add"], d0))
-    out.append("Lemma ex_vaddps_k1_zmm18 : fst (judge bucket row_of M64 %s [OReg 8 1; OReg 8 18; OReg 8 3] (mkD false false false 0 1 false (-1)) [98; 241; 108; 65; 88; 203]) = 0.\nProof. vm_compute. reflexivity. Qed.\n" % nid["vaddps"])
-    out.append("Lemma ex_mov_ecx_bp_fixed : fst (judge bucket row_of M32 %s [OReg 3 1; OMem 4 0 2 5 0 0 0 0 0] %s [103; 139; 78; 0]) = 0.\nProof. vm_compute. reflexivity. Qed.\n" % (nid["mov"], d0))
+    out.append("Lemma ex_add_rax_rcx : fst (judge bucket wbucket row_of M64 %s [OReg 4 0; OReg 4 1] %s [72; 1; 200]) = 0.\nProof. vm_compute. reflexivity. Qed.\n" % (nid["add"], d0))
+    out.append("Lemma ex_vaddps_k1_zmm18 : fst (judge bucket wbucket row_of M64 %s [OReg 8 1; OReg 8 18; OReg 8 3] (mkD false false false 0 1 false (-1)) [98; 241; 108; 65; 88; 203]) = 0.\nProof. vm_compute. reflexivity. Qed.\n" % nid["vaddps"])
+    out.append("Lemma ex_mov_ecx_bp_fixed : fst (judge bucket wbucket row_of M32 %s [OReg 3 1; OMem 4 0 2 5 0 0 0 0 0] %s [103; 139; 78; 0]) = 0.\nProof. vm_compute. reflexivity. Qed.\n" % (nid["mov"], d0))
     out.append("(* DESIGN 7.17: the pinned assembler emitted 67 8B 0E for mov ecx,[bp]: no denotation on its own, and followed by\n   further bytes it denotes mov ecx,[disp16] and swallows two of them *)")
-    out.append("Lemma ex_mov_ecx_bp_pinned_refuted : denote bucket M32 [103; 139; 14] = [] /\\\n  fst (judge bucket row_of M32 %s [OReg 3 1; OMem 4 0 2 5 0 0 0 0 0] %s [103; 139; 14; 144; 144]) = 2.\nProof. vm_compute. auto. Qed.\n" % (nid["mov"], d0))
+    out.append("Lemma ex_mov_ecx_bp_pinned_refuted : denote bucket M32 [103; 139; 14] = [] /\\\n  fst (judge bucket wbucket row_of M32 %s [OReg 3 1; OMem 4 0 2 5 0 0 0 0 0] %s [103; 139; 14; 144; 144]) = 2.\nProof. vm_compute. auto. Qed.\n" % (nid["mov"], d0))
     out.append("(* DESIGN 7.2: {k9} spilled into EVEX.V': the bytes denote vaddps zmm1{k1},zmm18,zmm3, not the call zmm1{k9},zmm2,zmm3 *)")
-    out.append("Lemma ex_vaddps_k9_refuted : fst (judge bucket row_of M64 %s [OReg 8 1; OReg 8 2; OReg 8 3] (mkD false false false 0 9 false (-1)) [98; 241; 108; 65; 88; 203]) = 2.\nProof. vm_compute. reflexivity. Qed.\n" % nid["vaddps"])
+    out.append("Lemma ex_vaddps_k9_refuted : fst (judge bucket wbucket row_of M64 %s [OReg 8 1; OReg 8 2; OReg 8 3] (mkD false false false 0 9 false (-1)) [98; 241; 108; 65; 88; 203]) = 2.\nProof. vm_compute. reflexivity. Qed.\n" % nid["vaddps"])
     out.append("(* finding: EVEX + 16-bit addressing: the emitted disp8 = 1 of vpabsq xmm0,[bx+si+1] denotes +16 (disp8*N) *)")
-    out.append("Lemma ex_evex_a16_disp8_refuted :\n  fst (judge bucket row_of M32 %s [OReg 6 0; OMem 16 0 2 3 2 6 0 1 0] %s [103; 98; 242; 253; 8; 31; 64; 1]) = 2 /\\\n  fst (judge bucket row_of M32 %s [OReg 6 0; OMem 16 0 2 3 2 6 0 16 0] %s [103; 98; 242; 253; 8; 31; 64; 1]) = 0.\nProof. vm_compute. auto. Qed.\n" % (nid["vpabsq"], d0, nid["vpabsq"], d0))
+    out.append("Lemma ex_evex_a16_disp8_refuted :\n  fst (judge bucket wbucket row_of M32 %s [OReg 6 0; OMem 16 0 2 3 2 6 0 1 0] %s [103; 98; 242; 253; 8; 31; 64; 1]) = 2 /\\\n  fst (judge bucket wbucket row_of M32 %s [OReg 6 0; OMem 16 0 2 3 2 6 0 16 0] %s [103; 98; 242; 253; 8; 31; 64; 1]) = 0.\nProof. vm_compute. auto. Qed.\n" % (nid["vpabsq"], d0, nid["vpabsq"], d0))
     out.append("(* REX emitted before the segment / address-size overrides is not a prefix of the opcode any more: 48 36 67 AD has no\n   denotation (a CPU ignores the REX: lodsd); the repaired order 36 67 48 AD is lods rax, ss:[esi] *)")
-    out.append("Lemma ex_rex_order_refuted : denote bucket M64 [72; 54; 103; 173] = [] /\\\n  fst (judge bucket row_of M64 %s [OReg 4 0; OMem 8 3 3 6 0 0 0 0 0] %s [54; 103; 72; 173]) = 0.\nProof. vm_compute. auto. Qed.\n" % (nid["lods"], d0))
+    out.append("Lemma ex_rex_order_refuted : denote bucket M64 [72; 54; 103; 173] = [] /\\\n  fst (judge bucket wbucket row_of M64 %s [OReg 4 0; OMem 8 3 3 6 0 0 0 0 0] %s [54; 103; 72; 173]) = 0.\nProof. vm_compute. auto. Qed.\n" % (nid["lods"], d0))
     out.append("(* mov [0x1000], ah took the moffs shortcut of AL: A2 00 10 00 00 is mov [0x1000], al *)")
-    out.append("Lemma ex_mov_ah_moffs_refuted :\n  fst (judge bucket row_of M32 %s [OMem 1 0 0 0 0 0 0 4096 0; OReg 16 0] %s [162; 0; 16; 0; 0]) = 2 /\\\n  fst (judge bucket row_of M32 %s [OMem 1 0 0 0 0 0 0 4096 0; OReg 1 0] %s [162; 0; 16; 0; 0]) = 0.\nProof. vm_compute. auto. Qed.\n" % (nid["mov"], d0, nid["mov"], d0))
+    out.append("Lemma ex_mov_ah_moffs_refuted :\n  fst (judge bucket wbucket row_of M32 %s [OMem 1 0 0 0 0 0 0 4096 0; OReg 16 0] %s [162; 0; 16; 0; 0]) = 2 /\\\n  fst (judge bucket wbucket row_of M32 %s [OMem 1 0 0 0 0 0 0 4096 0; OReg 1 0] %s [162; 0; 16; 0; 0]) = 0.\nProof. vm_compute. auto. Qed.\n" % (nid["mov"], d0, nid["mov"], d0))
+    if "fstsw" in names:
+        out.append("Definition id_fstsw : Z := %d." % names.index("fstsw"))
+        out.append("(* x87 wait forms: fstsw [eax] = 9B DD 38 (FWAIT + fnstsw); a segment override belongs AFTER the 9B (before it, it is FWAIT's) *)")
+        out.append("Lemma ex_fstsw_wait : fst (judge bucket wbucket row_of M32 id_fstsw [OMem 2 0 3 0 0 0 0 0 0] %s [155; 221; 56]) = 0.\nProof. vm_compute. reflexivity. Qed.\n" % d0)
+        out.append("Lemma ex_fstsw_wait_prefix_order :\n  fst (judge bucket wbucket row_of M32 id_fstsw [OMem 2 1 3 0 0 0 0 0 0] %s [38; 155; 221; 56]) = 2 /\\\n"
+                   "  fst (judge bucket wbucket row_of M32 id_fstsw [OMem 2 1 3 0 0 0 0 0 0] %s [155; 38; 221; 56]) = 0.\nProof. vm_compute. split; reflexivity. Qed.\n" % (d0, d0))
+    if "fwait" in names:
+        out.append("Definition id_fwait : Z := %d." % names.index("fwait"))
+        out.append("(* the one-instruction reading of bytes that start with 9B is FWAIT alone, one byte long (X86JudgeProofs.denote_9b_is_bucket_9b) *)")
+        out.append("Lemma db_bucket_9b : forallb (fun r => negb ((r_map r =? 0) && (r_kind r =? 0)) || ((r_name r =? id_fwait) && plain_op_row r)) (bucket 155) = true.\nProof. vm_compute. reflexivity. Qed.\n")
     return "\n".join(out)
 
 
@@ -371,7 +385,20 @@ def coq_text(rows, names=None):
             zb(r["modrm"]), r["mod"], zz(r["digit"]), zz(r["rmfix"]), r["imm"], zb(r["moffs"]), zz(r["suffix"]), zb(r["f23"]), zb(r["a67"]), r["tt"], r["msz"], r["bcst"],
             zb(r["k"]), zb(r["z"]), zb(r["er"]), zb(r["sae"]), r["vsib"], ops))
     out.append("")
+    allsup = sup
+    wait = [r for r in sup if r.get("wait")]
+    sup = [r for r in sup if not r.get("wait")]
     out.append("Definition db_rows : list row := [%s]." % "; ".join("r%d" % r["id"] for r in sup))
+    out.append("(* the x87 wait forms (9B + no-wait form): rows of the separate wait buckets, indexed by the opcode after the 9B *)")
+    out.append("Definition db_wait_rows : list row := [%s]." % "; ".join("r%d" % r["id"] for r in wait))
+    wb = {}
+    for r in wait:
+        wb.setdefault(r["opc"], []).append(r["id"])
+    out.append("Definition wbucket_raw (opc : Z) : list row :=\n  match opc with")
+    for o in sorted(wb):
+        out.append("  | %d => [%s]" % (o, "; ".join("r%d" % i for i in wb[o])))
+    out.append("  | _ => []\n  end.\n")
+    out.append("Definition wbucket (opc : Z) : list row := if zin 0 opc 256 then wbucket_raw opc else [].\n")
     buckets = {}
     for r in sup:
         lo = r["opc"] & ~7 if r["ri"] else r["opc"]
@@ -383,7 +410,7 @@ def coq_text(rows, names=None):
     out.append("  | _ => []\n  end.\n")
     out.append("Definition bucket (opc : Z) : list row := if zin 0 opc 256 then bucket_raw opc else [].\n")
     # row lookup by id: binary search tree keyed on id to keep lookups logarithmic
-    ids = [r["id"] for r in sup]
+    ids = [r["id"] for r in allsup]
 
     def tree(lo, hi, ind):
         if lo >= hi:
@@ -399,6 +426,10 @@ def coq_text(rows, names=None):
     out.append("Lemma db_bucket_ok : forallb (fun r => existsb (fun r' => r_id r' =? r_id r) (bucket (r_opc r))) db_rows = true.\nProof. vm_compute. reflexivity. Qed.\n")
     out.append("Lemma db_row_of_ok : forallb (fun r => match row_of (r_id r) with Some r' => r_id r' =? r_id r | None => false end) db_rows = true.\nProof. vm_compute. reflexivity. Qed.\n")
     out.append("Lemma db_bucket_sound : forallb (fun o => forallb (fun r => bucket_row_ok o r) (bucket o)) (zrange256) = true.\nProof. vm_compute. reflexivity. Qed.\n")
+    out.append("Lemma db_wait_wf : forallb row_wf db_wait_rows = true.\nProof. vm_compute. reflexivity. Qed.\n")
+    out.append("Lemma db_wait_bucket_ok : forallb (fun r => existsb (fun r' => r_id r' =? r_id r) (wbucket (r_opc r))) db_wait_rows = true.\nProof. vm_compute. reflexivity. Qed.\n")
+    out.append("Lemma db_wait_row_of_ok : forallb (fun r => match row_of (r_id r) with Some r' => r_id r' =? r_id r | None => false end) db_wait_rows = true.\nProof. vm_compute. reflexivity. Qed.\n")
+    out.append("Lemma db_wait_bucket_sound : forallb (fun o => forallb (fun r => bucket_row_ok o r && existsb (fun r' => r_id r' =? r_id r) db_wait_rows) (wbucket o)) (zrange256) = true.\nProof. vm_compute. reflexivity. Qed.\n")
     out.append("Definition db_count : Z := %d.\nLemma db_count_ok : Z.of_nat (length db_rows) = db_count.\nProof. vm_compute. reflexivity. Qed.\n" % len(sup))
     if names:
         nid = {n: i for i, n in enumerate(names)}
@@ -415,6 +446,22 @@ def coq_text(rows, names=None):
         out.append("(* uniqueness: rows of one opcode bucket that can accept the same bytes (X86Unique.may_overlap) name the same mnemonic or a listed pair *)")
         out.append("Lemma db_unique_raw : forallb (fun o => bucket_unique db_aliases (bucket_raw o)) (zrange 256) = true.\nProof. vm_compute. reflexivity. Qed.\n")
         out.append("Lemma db_unique : forall o, bucket_unique db_aliases (bucket o) = true.\nProof. exact (guarded_all bucket_raw db_aliases db_unique_raw). Qed.\n")
+        exs = []
+        pth = os.path.join(vlib.VERIF, "corpus", "C01_same_ops_exceptions.txt")
+        if os.path.exists(pth):
+            for l in open(pth):
+                l = l.split("#")[0].split()
+                if len(l) == 1 and l[0] in nid:
+                    exs.append(nid[l[0]])
+        out.append("(* same-mnemonic rows that may overlap (X86Unique.may_overlap and extra_overlap) have equal operand specifications, except the reviewed mnemonics of corpus/C01_same_ops_exceptions.txt *)")
+        out.append("Definition db_same_ops_exceptions : list Z := [%s]." % "; ".join(str(x) for x in exs))
+        out.append("Lemma db_same_ops_raw : forallb (fun o => bucket_same_ops db_same_ops_exceptions (bucket_raw o)) (zrange 256) = true.\nProof. vm_compute. reflexivity. Qed.\n")
+        out.append("Lemma db_same_ops : forall o, bucket_same_ops db_same_ops_exceptions (bucket o) = true.\nProof. exact (guarded_same_ops bucket_raw db_same_ops_exceptions db_same_ops_raw). Qed.\n")
+        out.append("Lemma db_wait_same_ops_raw : forallb (fun o => bucket_same_ops db_same_ops_exceptions (wbucket_raw o)) (zrange 256) = true.\nProof. vm_compute. reflexivity. Qed.\n")
+        out.append("Lemma db_wait_unique_raw : forallb (fun o => bucket_unique db_aliases (wbucket_raw o)) (zrange 256) = true.\nProof. vm_compute. reflexivity. Qed.\n")
+        out.append("Lemma db_wait_unique : forall o, bucket_unique db_aliases (wbucket o) = true.\nProof. exact (guarded_all wbucket_raw db_aliases db_wait_unique_raw). Qed.\n")
+        out.append("Lemma db_wait_bucket_row_of_raw : forallb (fun o => bucket_row_of_ok row_of (wbucket_raw o)) (zrange 256) = true.\nProof. vm_compute. reflexivity. Qed.\n")
+        out.append("Lemma db_wait_bucket_row_of : forall o, bucket_row_of_ok row_of (wbucket o) = true.\nProof. exact (guarded_row_of wbucket_raw row_of db_wait_bucket_row_of_raw). Qed.\n")
         out.append("(* the row the judge looks up by id reads names and decorations like the bucket's row of that id *)")
         out.append("Lemma db_bucket_row_of_raw : forallb (fun o => bucket_row_of_ok row_of (bucket_raw o)) (zrange 256) = true.\nProof. vm_compute. reflexivity. Qed.\n")
         out.append("Lemma db_bucket_row_of : forall o, bucket_row_of_ok row_of (bucket o) = true.\nProof. exact (guarded_row_of bucket_raw row_of db_bucket_row_of_raw). Qed.\n")
